@@ -90,3 +90,5 @@ pub uninterp spec fn json_of<T: ?Sized>(obj: &T) -> Seq<char>;
 pub broadcast proof fn axiom_json_of_ref<T>(r: &&T)
     ensures #[trigger] json_of::<&T>(r) == json_of::<T>(*r),
 {}
+/// what serde_json makes of a text when asked for a T (None: not a document of that type). Uninterpreted.
+pub uninterp spec fn parse_json<T>(text: Seq<char>) -> Option<T>;
